@@ -25,6 +25,9 @@ class AsPolynomial(Contract):
         p = args[0]
         if isinstance(p, Poly) and len(args) == 1 and not kw:
             return p
+        from contracts.shapefn import MovedRaw, rewrap
+        if isinstance(p, MovedRaw) and len(args) == 1 and set(kw) == {"names"}:
+            return rewrap(ex, p, kw["names"], node)
         raise U("aspolynomial of this input kind", node)
 
 
